@@ -102,7 +102,7 @@ func VerifC15Codec() {
 func VerifC15TotalBinary() {
 	n := 5
 	if rt.Tier() > 0 {
-		n = 8
+		n = 7
 	}
 	h := &Hash{}
 	err := h.UnmarshalVT(rt.Bytes("bin", 0, n))
